@@ -401,3 +401,73 @@ func genDescs(g *core.G, lg *lat.Gen) {
 		g.Emit("@descs " + s(lg.Ty(1)) + " " + odd[(i+1)%len(odd)])
 	}
 }
+
+// genCallTerms: Callable expectations inside the structure op (describeCallableType is the Callable arm of the model's internalDescribe):
+// every pair of a family of Callable forms {parameters} x {return type} x {block type} at the top, the same nested in Optional /
+// Variant / Struct / Array-vs-Tuple / alias, Callables against lattice types, and random terms with Callables anywhere (lat.Gen.Call).
+func genCallTerms(g *core.G, lg *lat.Gen) {
+	tp := func(t lat.Ty) *lat.Ty { return &t }
+	str, integer := lat.Atom("str"), lat.Int(lat.MinI, lat.MaxI)
+	params := []*lat.Ty{nil, tp(lat.TupSz(nil, 0, 0)), tp(lat.Tup([]lat.Ty{str})), tp(lat.Tup([]lat.Ty{str, integer})), tp(lat.TupSz([]lat.Ty{str}, 1, lat.MaxI)),
+		tp(lat.Tup([]lat.Ty{integer})), tp(lat.TupSz([]lat.Ty{str, integer}, 1, 2)), tp(lat.Tup([]lat.Ty{lat.Struct(lat.Mem("a", false, integer))})),
+		tp(lat.Tup([]lat.Ty{lat.Var(integer, str)})), tp(lat.TupSz(nil, 0, lat.MaxI))}
+	rets := []*lat.Ty{nil, tp(integer), tp(str), tp(lat.Atom("any")), tp(lat.Opt(str))}
+	b11 := lat.Call(tp(lat.TupSz(nil, 1, 1)), nil, nil)
+	blocks := []*lat.Ty{nil, tp(b11), tp(lat.Opt(b11)), tp(lat.Call(tp(lat.TupSz(nil, 1, 1)), tp(integer), nil)), tp(lat.Opt(lat.Call(tp(lat.Tup([]lat.Ty{str})), nil, nil)))}
+	var forms []lat.Ty
+	for _, p := range params {
+		for _, r := range rets {
+			for _, b := range blocks {
+				forms = append(forms, lat.Call(p, r, b))
+			}
+		}
+	}
+	others := []lat.Ty{integer, lat.Atom("undef"), lat.Atom("any"), lat.Atom("unit"), lat.Var(), lat.Var(integer, str), lat.Opt(str), lat.NU(lat.Atom("unit")),
+		lat.Atom("data"), lat.Atom("rdata"), lat.Struct(lat.Mem("a", false, integer)), lat.Tup([]lat.Ty{str}), lat.TypeOf(lat.Atom("any"))}
+	nests := []func(e, a lat.Ty) (lat.Ty, lat.Ty){
+		func(e, a lat.Ty) (lat.Ty, lat.Ty) { return lat.Opt(e), a },
+		func(e, a lat.Ty) (lat.Ty, lat.Ty) { return lat.Var(integer, e), a },
+		func(e, a lat.Ty) (lat.Ty, lat.Ty) { return lat.Struct(lat.Mem("cb", false, e)), lat.Struct(lat.Mem("cb", false, a)) },
+		func(e, a lat.Ty) (lat.Ty, lat.Ty) { return lat.Struct(lat.Mem("cb", false, e), lat.Mem("n", false, integer)), lat.Struct(lat.Mem("cb", false, a), lat.Mem("n", false, str)) },
+		func(e, a lat.Ty) (lat.Ty, lat.Ty) { return lat.Arr(e, 0, lat.MaxI), lat.Tup([]lat.Ty{a}) },
+		func(e, a lat.Ty) (lat.Ty, lat.Ty) { return lat.Hash(str, e, 0, lat.MaxI), lat.Struct(lat.Mem("cb", false, a)) },
+		func(e, a lat.Ty) (lat.Ty, lat.Ty) { return lat.Alias(e), a },
+		func(e, a lat.Ty) (lat.Ty, lat.Ty) { return lat.Var(e, lat.Call(tp(lat.Tup([]lat.Ty{lat.Flt(0, 1)})), tp(lat.Flt(0, 1)), nil)), a },
+		func(e, a lat.Ty) (lat.Ty, lat.Ty) { return lat.Tup([]lat.Ty{integer, e}), lat.Arr(a, 2, 2) },
+	}
+	for i, e := range forms {
+		for j, a := range forms {
+			if g.Thorough() || (i*7+j)%5 == 0 || i == j {
+				g.Emit("descs " + e.String() + " " + a.String())
+			}
+			if g.Thorough() || (i*11+j)%17 == 0 {
+				ne, na := nests[(i+j)%len(nests)](e, a)
+				g.Emit("descs " + ne.String() + " " + na.String())
+			}
+		}
+		for _, o := range others {
+			g.Emit("descs " + e.String() + " " + o.String())
+		}
+	}
+	lg.Alias, lg.Call = false, true
+	for n := 0; n < 3000*g.Scale; n++ {
+		e := lg.Ty(1 + g.Rng.Intn(3))
+		var a lat.Ty
+		switch g.Rng.Intn(4) {
+		case 0:
+			a = lg.Narrow(e)
+		case 1:
+			a = lg.Widen(e)
+		case 2:
+			if m, ok := lg.SwapOne(e); ok {
+				a = m
+			} else {
+				a = lg.Ty(2)
+			}
+		default:
+			a = lg.Ty(1 + g.Rng.Intn(2))
+		}
+		g.Emit("descs " + e.String() + " " + a.String())
+	}
+	lg.Call = false
+}
